@@ -193,8 +193,8 @@ func splitPairValue(pair string) string {
 // replayOnCode concretises the model into a call of the real function (where the inputs are simple enough).
 func (e *engine) replayOnCode(o *obligation) map[string]any {
 	fn := e.w.funcs[o.Func]
-	if fn == nil || fn.Pkg == nil || fn.Parent() != nil {
-		return nil
+	if fn == nil || fn.Pkg == nil || fn.Parent() != nil || o.ctx == nil {
+		return nil // (obligations decided by a static scan have no solver context and no model)
 	}
 	pkgPath := fn.Pkg.Pkg.Path()
 	var terms []string
